@@ -142,4 +142,28 @@ PROPS = {
                 "Distinct: hash of the case text (automata + planned steps).",
         "assumptions": COMMON_ASSUMPTIONS + ["automata are only loaded into fresh handles (AddTransition on a shared table is an explicitly unimplemented branch)"],
     },
+    "C11": {
+        "harness": "c11",
+        "quick": {"workers": 8, "cases": 1200, "size": 36, "min_records": 14},
+        "thorough": {"workers": 16, "cases": 12000, "size": 50, "min_records": 14},
+        "min_nontrivial_frac": 0.3,
+        "rule": "histories of 6-32 steps over <= 6 live ExplicitTreeAut and <= 4 live ExplicitFiniteAut handles: default-construct, build/load, copy-construct (all four copyTrans/copyFinal combinations), copy-assign (incl. self), "
+                "move-construct, move-assign, AddTransition, SetStateFinal, SetStateStart, EraseFinalStates, Clear, destroy, value-producing operations (Union, UnionDisjointStates, Intersection(BU), RemoveUnreachableStates, "
+                "RemoveUselessStates, Reduce, GetCandidateTree, ReindexStates, CollapseStates, TranslateSymbols, Reverse) whose results enter the pool with the value observed at return, and verdict-producing calls "
+                "(IsLangEmpty, the 8 inclusion selections). After EVERY step all live handles are read (iteration / dump) and must equal their model values; at the end every recorded value/verdict call is repeated on freshly "
+                "built operands with the same values and must give the same verdict / a language-equivalent automaton with the same numbers of states and rules. Non-trivial: the history mutates a handle that (potentially) "
+                "shares storage with another live handle. Distinct: hash of the case text (automata + planned steps).",
+        "assumptions": COMMON_ASSUMPTIONS + ["moved-from handles are only destroyed", "syntactic equality of repeated results is not demanded (numbering may follow heap addresses)"],
+    },
+    "C12": {
+        "harness": "c12",
+        "quick": {"workers": 8, "cases": 2000, "size": 40, "min_records": 6},
+        "thorough": {"workers": 16, "cases": 20000, "size": 70, "min_records": 6},
+        "min_nontrivial_frac": 0.3,
+        "rule": "histories of AddTransition (5 states incl. a far one, 4 numeric symbols each used with arities 0-3, duplicates, re-adding an existing rule through both overloads), SetStateFinal, SetStatesFinal, EraseFinalStates, Clear on one "
+                "ExplicitTreeAut; after every step the range-for iteration (as a multiset: each rule exactly once), ContainsTransition on every model rule and on generated absent rules (other parent / symbol / arity / child / unknown parent), "
+                "GetAcceptTrans, aut[q] for every pool state and an unknown one (incl. empty()), GetUsedStates, GetFinalStates, IsStateFinal and AreTransitionsEmpty are compared with a set-of-rules model. "
+                "Non-trivial: the history has a Clear or EraseFinalStates after at least one add, and a duplicate add. Distinct: hash of the planned history.",
+        "assumptions": COMMON_ASSUMPTIONS + ["Clear() also empties the final set (as implemented and as the model assumes)"],
+    },
 }
